@@ -114,11 +114,29 @@ var subC09 = harness.NewSub("c09-reencode-stable", func(c c09Case, d harness.Dia
 
 // genAcceptedish draws inputs with a high acceptance rate that are mostly not canonical.
 func genAcceptedish(t *rapid.T, big bool) (string, []byte) {
-	hi := 7
+	hi := 9
 	if big {
-		hi = 8
+		hi = 10
 	}
 	switch rapid.IntRange(0, hi).Draw(t, "c09.kind") {
+	case 8, 9:
+		// RFC 3550 padding on any packet type: P bit set, optional extra words, and a final
+		// octet that looks like a padding count (decoders differ in whether they honour it)
+		p := gen.Packet(t)
+		e, err := m.Encode(p, &m.EncOpts{D: gen.PionDialect})
+		if err != nil {
+			panic(err)
+		}
+		b := append(e.B, gen.BytesN(t, 4*rapid.IntRange(0, 3).Draw(t, "pad.words"), "pad")...)
+		if len(b) >= 8 {
+			b[0] |= 0x20
+			b[len(b)-1] = byte(rapid.SampledFrom([]int{0, 1, 2, 3, 4, 5, 7, 8, 9, 12, 16, 255}).Draw(t, "pad.count"))
+			w := len(b)/4 - 1
+			if w <= 0xFFFF {
+				b[2], b[3] = byte(w>>8), byte(w)
+			}
+		}
+		return "padded-any-type", b
 	case 0, 1:
 		k, b := genVariantEncoding(t)
 		return "variant:" + k, b
@@ -156,7 +174,7 @@ func genAcceptedish(t *rapid.T, big bool) (string, []byte) {
 	case 4:
 		_, b := genTWCCBytes(t)
 		return "twcc-targeted", b
-	case 8:
+	case 10:
 		return "big-frame", gen.BigFrame(t)
 	default:
 		k, b := gen.HostileBytes(t, false)
